@@ -55,8 +55,13 @@ TP ==
                     \cup (IF E.a = "ReadError" THEN V(FALSE, "ProtocolReadServed") ELSE {})
                     \* the fetch came back and the read went on without storing the fetched revision
                     \cup (IF E.a = "NoSet" THEN V(FALSE, "FollowerAdoptsFetched") ELSE {})
+\* the counterexample to LeaderRevisionMonotone (Roles.tla, Promotes = TRUE) on the real syncer and the real backend: the old
+\* leader's answer to a follower read arrives after the node has taken over and committed writes of its own
+TDerail == /\ Is("Derail") /\ l' = l + 1
+           /\ viol' = viol \cup V(E.setup_ok => (E.committed_after_sync >= E.committed_before /\ E.created /\ E.resolved /\ E.listed = E.written), "LeaderNotDerailedByLateSync")
+           /\ UNCHANGED <<lr, mst, stv>>
 TReset == /\ Is("Reset") /\ l' = l + 1 /\ lr' = 5 /\ mst' = [r \in RS |-> 0] /\ stv' = [r \in RS |-> 0] /\ UNCHANGED viol
-TNext == TCase \/ TP \/ TReset
+TNext == TCase \/ TP \/ TDerail \/ TReset
 TSpec == TInit /\ [][TNext]_tvars
 TraceAccepted == TLCGet("stats").diameter - 1 = Len(Trace)
 NoViol(name) == \A v \in viol : v[1] # name
@@ -71,4 +76,5 @@ M_ReadNotStaleSharedFetch == NoViol("ReadNotStaleSharedFetch")
 M_ReadNotStaleLoweredRevision == NoViol("ReadNotStaleLoweredRevision")
 M_ProtocolReadServed == NoViol("ProtocolReadServed")
 M_FollowerAdoptsFetched == NoViol("FollowerAdoptsFetched")
+M_LeaderNotDerailedByLateSync == NoViol("LeaderNotDerailedByLateSync")
 =============================================================================
